@@ -222,6 +222,33 @@ func runC17(h *H) {
 			h.Eval("")
 		}
 		ts.Close()
+		// a server that cannot offer STARTTLS at all (no TLS configuration): without InsecureAuth
+		// nothing may authenticate over its plaintext connections
+		{
+			ts := startServer(srvOpts{InsecureAuth: insecure})
+			for _, lineA := range []string{"LOGIN user pass", "AUTHENTICATE PLAIN AHVzZXIAcGFzcw=="} {
+				rc := ts.dial()
+				g, _ := rc.greeting()
+				stub := ts.lastSession()
+				_, tagged, _ := rc.cmd(lineA)
+				desc := map[string]interface{}{"insecure": insecure, "tls_config": false, "line": lineA}
+				if (respClass(tagged) == "OK") != insecure {
+					h.Fail("plaintext-login", fmt.Sprintf("%s on plaintext with InsecureAuth=%v and no TLS configuration answered %q", lineA, insecure, tagged), desc)
+				}
+				if !insecure {
+					for _, k := range stub.Calls() {
+						h.Fail("creds-without-tls:"+k.Name, fmt.Sprintf("backend call %s %v over plaintext without InsecureAuth (server without TLS configuration)", k.Name, k.Args), desc)
+					}
+					if !strings.Contains(g, "LOGINDISABLED") || strings.Contains(g, "AUTH=") {
+						h.Fail("auth-advertised-plaintext", fmt.Sprintf("greeting of a server without TLS configuration and without InsecureAuth: %q", g), desc)
+					}
+				}
+				rc.Close()
+				h.Eval(fmt.Sprintf("no-tlsconfig|%v|%s", insecure, lineA))
+				h.Hist("server_without_tlsconfig")
+			}
+			ts.Close()
+		}
 		// the same with a backend that brings its own SASL mechanisms (SessionSASL): AUTHENTICATE
 		// on the unencrypted connection must be refused before the backend sees the credentials
 		{
